@@ -236,6 +236,38 @@ fn cap_script(c: &CapCase) -> (Vec<String>, Option<ErrKind>, String) {
             None,
             "frames".into(),
         ),
+        // direct-mode statements typed at a breakpoint that was taken with a cap (nearly) reached:
+        // the interrupted program's frames / loops are kept there, so the caps apply to the sum
+        "x-stop-gosub" => (
+            vec![
+                "5 DEF FNQ(X) = X + 1".into(),
+                "10 Z = 0 : GOSUB 100 : PRINT \"done\" : END".into(),
+                format!("100 Z = Z + 1 : IF Z < {} THEN GOSUB 100", n),
+                "105 STOP".into(),
+                "110 RETURN".into(),
+                "200 STOP".into(),
+                "210 PRINT 1 / 0".into(),
+                "220 GOSUB 200".into(),
+                "RUN".into(),
+                "GOSUB 200".into(),
+                "PRINT FNQ(1)".into(),
+                "GOSUB 210".into(),
+                "GOSUB 220".into(),
+                "GOSUB 200".into(),
+                "PRINT FNQ(FNQ(1))".into(),
+                "CONT".into(),
+            ],
+            None,
+            "frames".into(),
+        ),
+        "x-stop-for" => {
+            let mut l = String::from("10 ");
+            for i in 1..=n {
+                l.push_str(&format!("FOR C{} = 1 TO 1 : ", i));
+            }
+            l.push_str("STOP : PRINT \"in\"");
+            (vec![l, "20 FOR K1 = 1 TO 2 : FOR K2 = 1 TO 2 : STOP".into(), "RUN".into(), "FOR Q1 = 1 TO 2".into(), "FOR Q2 = 1 TO 2".into(), "GOTO 20".into(), "FOR Q3 = 1 TO 2".into(), "CONT".into()], None, "loops".into())
+        }
         "dim1" => (vec![format!("DIM V({})", n)], if n + 1 > ARRAY_CAP { Some(ErrKind::ArrayTooLarge) } else { None }, "cells".into()),
         "dim2" => (vec![format!("DIM V({},99)", n)], if (n + 1) * 100 > ARRAY_CAP { Some(ErrKind::ArrayTooLarge) } else { None }, "cells".into()),
         "implicit" => {
@@ -309,6 +341,8 @@ const CAP_CASES: &[(&str, &[u32])] = &[
     ("x-for-badvar", &[1, 30, 31, 32, 33]),
     ("x-for-badlimit", &[1, 30, 31, 32, 33]),
     ("x-gosub-undef", &[1, 30, 31, 32, 33]),
+    ("x-stop-gosub", &[1, 29, 30, 31, 32]),
+    ("x-stop-for", &[1, 29, 30, 31, 32]),
 ];
 
 pub fn property() -> Property {
@@ -337,7 +371,7 @@ pub fn property() -> Property {
     ];
     Property {
         id: "C16",
-        rule: "cap-scripts (exhaustive list): GOSUB recursion to depth 1..100, 1..40 nested FOR loops over distinct variables, a FOR pair re-entered by GOTO up to 5000 times, loops abandoned by GOTO/RETURN up to 1000 times, DIM with 0..2^32-1 x {1, 100} cells around the 10000-cell cap, implicit arrays with 1..40 subscripts read and written; ill-typed FORs and jumps to undefined lines executed with 30-33 loops / frames open (only the invariants are judged there); the error (OUT OF MEMORY STACK OVERFLOW / ARRAY TOO LARGE) must appear exactly when the stated cap is exceeded and the interpreter must stay usable. typing-sessions: ill-typed writes through LET, cell assignment, FOR variable, NEXT, READ, INPUT replies and parameter binding with $ and non-$ names. loop-sessions: FOR / NEXT / GOSUB / RETURN typed one statement per turn at the prompt, mixed with program lines whose THEN and ELSE clauses both open loops and counter-guarded re-entries. structured-/hostile-sessions: C01's generators. Invariant after every host call (snapshot hook): <= 32 frames; <= 32 open loops over pairwise distinct variables, each a FOR variable that occurred in the session; every array's cell count equals the product of its dimensions and is <= 10000; every scalar, array and frame binding has the kind its name's suffix demands. Non-trivial: the session reached depth >= 31, >= 31 open loops, an array of >= 5000 cells or a rejected ill-typed write; distinct by call-kind/outcome sequence.",
+        rule: "cap-scripts (exhaustive list): GOSUB recursion to depth 1..100, 1..40 nested FOR loops over distinct variables, a FOR pair re-entered by GOTO up to 5000 times, loops abandoned by GOTO/RETURN up to 1000 times, DIM with 0..2^32-1 x {1, 100} cells around the 10000-cell cap, implicit arrays with 1..40 subscripts read and written; ill-typed FORs and jumps to undefined lines executed with 30-33 loops / frames open (only the invariants are judged there); GOSUB, FOR and user-function calls typed in direct mode at a STOP breakpoint taken with 29-32 frames / loops open, whose subroutines stop or fail before returning (invariants only); the error (OUT OF MEMORY STACK OVERFLOW / ARRAY TOO LARGE) must appear exactly when the stated cap is exceeded and the interpreter must stay usable. typing-sessions: ill-typed writes through LET, cell assignment, FOR variable, NEXT, READ, INPUT replies and parameter binding with $ and non-$ names. loop-sessions: FOR / NEXT / GOSUB / RETURN typed one statement per turn at the prompt, mixed with program lines whose THEN and ELSE clauses both open loops and counter-guarded re-entries. structured-/hostile-sessions: C01's generators. Invariant after every host call (snapshot hook): <= 32 frames; <= 32 open loops over pairwise distinct variables, each a FOR variable that occurred in the session; every array's cell count equals the product of its dimensions and is <= 10000; every scalar, array and frame binding has the kind its name's suffix demands. Non-trivial: the session reached depth >= 31, >= 31 open loops, an array of >= 5000 cells or a rejected ill-typed write; distinct by call-kind/outcome sequence.",
         assumptions: vec!["FOR variables of a session are extracted with the tokenizer hook (instrumentation only)"],
         fuzz: Some(FuzzSpec { target: "c16_invariants", runs: 150_000, max_len: 2048, verdict: crate::fuzz::c16_verdict }),
         families,
